@@ -397,3 +397,12 @@ func AsMap(e *Env) map[string]interface{} {
 }
 
 var EnvType = reflect.TypeOf(Env{})
+
+// ResetLog empties the call log of e (the log is harness state, not part of
+// the environment the library sees).
+func ResetLog(e *Env) {
+	if e.log != nil {
+		e.log.Calls = nil
+		e.log.PanicAt = 0
+	}
+}
